@@ -17,7 +17,7 @@ pub fn mon() -> Mon {
         replay,
         rule: "All 256 byte values through CommandCode::from and MessageType::from, bytes 0-5 through CompletionCode::from; each result is compared (a) by variant identity with the variant DSP0236 names for that code point and (b) by numeric value with literal tables (command codes 0x00-0x14 else 0xFF, message types {0x00,0x05,0x06,0x7E,0x7F} else 0xFF, completion codes 0-5); every variant's numeric value is compared with its DSP0236 literal. Every (conversion, byte) pair is a distinct non-trivial case.",
         assumptions: &["completion codes above 5 are outside C19's claim (they are C10's, through the decoder)"],
-        children: no_children,
+        children: rel_child_quarter,
     }
 }
 
